@@ -460,7 +460,8 @@ class World:
         tree = getattr(self.grid, "_kdtree", None)
         tv = "none"
         if tree is not None:
-            data = np.asarray(tree.data)
+            # (whatever object the class keeps there: only a plain tree exposes the array it indexes)
+            data = np.asarray(getattr(tree, "data", np.zeros(0)))
             tv = "other"
             for k, p in enumerate(self.P):
                 if data.shape == p.reshape(len(p), -1).shape and np.array_equal(data, p.reshape(len(p), -1)):
